@@ -255,6 +255,13 @@ def document(rng, dsx, sp, date="2024-01-01T00:00:00", decorate=True, header=Tru
                 extra["shortDescription"] = sd
             ld = rng.choice([None, None, "Long text"])
         c_els.append(w.container(c, extra, ld))
+    # the order of the SequenceContainer elements is free in XTCE: derived containers may come before their base,
+    # a container before the containers it nests (the loader then parses those first, recursively)
+    r = rng.random()
+    if r < 0.25:
+        c_els.reverse()
+    elif r < 0.5:
+        rng.shuffle(c_els)
     tm = w.E("TelemetryMetaData", None, w.E("ParameterTypeSet", None, *t_els), w.E("ParameterSet", None, *p_els),
              w.E("ContainerSet", None, *c_els))
     hdr = w.E("Header", {"date": date, "version": "1.0", "validationStatus": "Unknown"}) if header else None
